@@ -130,6 +130,7 @@ def run(b, ps, tier, seed):
     outcomes = collections.Counter()
     deviations = 0
     f19 = 0
+    unchecked_inside = 0
     for (k, fv, v), r in sorted(results.items()):
         m = model[(k, fv)]
         outcomes[(r["exit"], r["trace"], bool(r["labels"]))] += 1
@@ -138,6 +139,16 @@ def run(b, ps, tier, seed):
             # known finding F19: open / unchecked programs are executed and protocol errors surface as a Go panic
             f19 += 1
             if m["trace"]:
+                continue
+        if unchecked and not r["trace"] and m["trace"]:
+            # the MODEL's unchecked / open run stops with an error and the real one does not die: what happens INSIDE
+            # such a run is outside every claim of the property and outside the model's fidelity (without annotations
+            # the model stops where the real interpreter may merely stall).  Only the gate is compared then - was the
+            # runtime reached, how many diagnostics, and the status the property prescribes when the run does not die (0)
+            unchecked_inside += 1
+            gate_real = (r["exit"] == 1, r["diags"] >= 1)
+            gate_model = (m["exit"] == 1, m["diags"] >= 1)
+            if gate_real == gate_model and (m.get("ran", True) or not r["labels"]) and r["exit"] in (0, 1):
                 continue
         if same(r, m):
             continue
@@ -167,6 +178,7 @@ def run(b, ps, tier, seed):
         "outcomes_seen(exit,trace,printed)": {str(k): v for k, v in outcomes.items()},
         "deviations_confirmed": deviations,
         "f19_runs": f19,
+        "unchecked_or_open_runs_compared_at_the_gate_only": unchecked_inside,
     }
     return {"violations": violations, "known": known, "coverage": cov,
             "assumptions": ["the `flag` package (command-line syntax) is outside the model; the real binary is driven with real command lines",
